@@ -124,7 +124,8 @@ Record rd_obs := {
   ro_dispatched : list (N * (N * bytes));  (* (channel handler, (frame type, payload)) in order *)
   ro_carries : list nat;                   (* len(data_in) after every chunk *)
   ro_carry : bytes;                        (* data_in at the end *)
-  ro_errors : nat                          (* errors recorded on the connection meanwhile *)
+  ro_errors : nat;                         (* errors recorded on the connection meanwhile *)
+  ro_reads : nat                           (* life signs registered with the heartbeat monitor *)
 }.
 
 Definition disp_eqb (a b : N * (N * bytes)) : bool :=
@@ -132,7 +133,7 @@ Definition disp_eqb (a b : N * (N * bytes)) : bool :=
 Definition rd_obs_eqb (a b : rd_obs) : bool :=
   list_eqb disp_eqb (ro_dispatched a) (ro_dispatched b) &&
   list_eqb Nat.eqb (ro_carries a) (ro_carries b) && bytes_eqb (ro_carry a) (ro_carry b) &&
-  Nat.eqb (ro_errors a) (ro_errors b).
+  Nat.eqb (ro_errors a) (ro_errors b) && Nat.eqb (ro_reads a) (ro_reads b).
 
 (* The property on an observation, independent of how the stream was cut:
    what was dispatched plus what is still buffered accounts for exactly the
@@ -152,7 +153,8 @@ Definition rd_model (i : rd_in) : rd_obs :=
   let '(fs, carry) := feed all_decodable [] (ri_chunks i) in
   {| ro_dispatched := routed (ri_registered i) fs;
      ro_carries := feed_carries all_decodable [] (ri_chunks i);
-     ro_carry := carry; ro_errors := 0 |}.
+     ro_carry := carry; ro_errors := 0;
+     ro_reads := length fs |}.      (* one life sign per frame read, whatever its channel *)
 
 Definition rd_prop_ok (i : rd_in) (o : rd_obs) : bool :=
   let whole := concat (ri_chunks i) in
@@ -161,11 +163,12 @@ Definition rd_prop_ok (i : rd_in) (o : rd_obs) : bool :=
     bytes_eqb whole (enc_all fs ++ tail) &&                 (* the case is what it claims to be *)
     list_eqb disp_eqb (ro_dispatched o) (routed (ri_registered i) fs) &&
     bytes_eqb (ro_carry o) tail &&
-    Nat.eqb (ro_errors o) 0        (* a conforming stream never poisons the connection *)
+    Nat.eqb (ro_errors o) 0 &&     (* a conforming stream never poisons the connection *)
+    Nat.eqb (ro_reads o) (length fs)   (* every frame counts as a life sign, wherever the reads were cut *)
   | None =>
     let '(fs, rest) := read_buffer all_decodable (S (length whole)) whole in
     list_eqb disp_eqb (ro_dispatched o) (routed (ri_registered i) fs) &&
-    bytes_eqb (ro_carry o) rest
+    bytes_eqb (ro_carry o) rest && Nat.eqb (ro_reads o) (length fs)
   end.
 
 Definition rd_nontrivial (i : rd_in) (o : rd_obs) : bool :=
